@@ -185,6 +185,10 @@ func (b *bitstream) Next() error {
 
 	// Found the end of the file.
 	if c == -1 {
+		if !b.stack.empty() {
+			// The input ends inside a container that declared more content.
+			return &UnexpectedEOFError{b.pos - 1}
+		}
 		b.code = bitcodeEOF
 		return nil
 	}
